@@ -480,9 +480,18 @@ def bag_shape(rng, shared, fresh=('T', 'L'), atoms=META_ATOMS, anon=True, tails=
     r = rng.random()
     if r < 0.18:
         return V(rng.choice(list(fresh) + tails))
-    if r < 0.50:
+    if r < 0.42:
+        # only atoms: a closed list, or a ground prefix before a fresh tail
+        items = [A(rng.choice(atoms)) for _ in range(rng.choice([0, 1, 1, 2, 2, 3]))]
+        if items and rng.random() < 0.35:
+            out = V(rng.choice(list(fresh)))
+            for x in reversed(items):
+                out = ['pair', x, out]
+            return out
+        return ['list', items]
+    if r < 0.60:
         return ['list', [elem() for _ in range(rng.choice([0, 1, 1, 2, 2, 3]))]]
-    if r < 0.94:
+    if r < 0.95:
         tail = V(rng.choice(list(fresh) + list(fresh) + tails + (['_'] if anon else [])))
         out = tail
         for _ in range(rng.choice([1, 1, 1, 2, 2, 3])):
@@ -522,17 +531,17 @@ def _meta_goal_term(rng, sens, hv, lv):
         if q < pv + 0.12: return A(rng.choice(META_ATOMS))
         return F('f', V(rng.choice(pool)))
     q = rng.random()
-    if q < 0.80:
+    if q < 0.86:
         a1, a2 = arg(hv + hv + lv), arg(lv + lv + hv)
         for _ in range(5):
             if set(_tvars(a1)) & set(_tvars(a2)) and rng.random() < 0.9:
                 a2 = arg(lv + lv + hv)
-        return (rng.choice(sens) if q < 0.70 else 'k'), [a1, a2]
+        return (rng.choice(sens) if q < 0.78 else 'k'), [a1, a2]
     lhs = arg(hv + lv, 0.9)
     t = rand_shared_term(rng, hv + lv)
     if lhs[0] == 'var' and t[0] != 'var':
         t = subst_var(t, lhs[1], rng.choice([x for x in hv + lv + ['W'] if x != lhs[1]]))       # no cyclic term
-    return ('=' if q < 0.9 else '\\='), [lhs, t]
+    return ('=' if q < 0.93 else '\\='), [lhs, t]
 
 def subst_var(t, old, new):
     if t[0] == 'var': return V(new) if t[1] == old else t
@@ -618,11 +627,36 @@ def gen_meta_program(rng):
         clauses.append(['k', row, ['true']])
     ns = rng.randrange(1, 4)
     sens = ['s%d' % i for i in range(ns)]
+    at = lambda: A(rng.choice(META_ATOMS))
+    exposers = []
     for i, name in enumerate(sens):
+        if rng.random() < 0.5:
+            exposers.append(name)
+            # an answer that leaves the caller's own variable inside the instance, then answers that exist, or have their
+            # value, only for certain bindings of that variable
+            q = rng.random()
+            if q < 0.5: clauses.append([name, [V('V'), V('X')], ['call', '=', [V('X'), V('V')]]])
+            elif q < 0.7: clauses.append([name, [V('V'), V('V')], ['true']])
+            elif q < 0.85: clauses.append([name, [V('V'), V('X')], ['call', '=', [V('X'), F('f', V('V'))]]])
+            else: clauses.append([name, [V('V'), F('f', V('V'))], ['true']])
+            for _ in range(rng.choice([1, 1, 2, 3])):
+                q = rng.random()
+                if q < 0.35: test = ['call', '\\=', [V('V'), at()]]
+                elif q < 0.6: test = ['call', '=', [V('V'), at()]]
+                elif q < 0.75: test = ['call', 'k', [V('V'), V('_')]]
+                elif q < 0.85: test = ['not', ['call', '=', [V('V'), at()]]]
+                else: test = None
+                if test is None:
+                    clauses.append([name, [V('V'), V('X')], ['or', ['if', ['call', '=', [V('V'), at()]], ['call', '=', [V('X'), at()]]], ['call', '=', [V('X'), at()]]]])
+                else:
+                    clauses.append([name, [V('V'), V('X')], ['and', test, ['call', '=', [V('X'), at()]]]])
+            continue
         for _ in range(rng.choice([1, 2, 2, 2, 3, 3, 4])):
             clauses.append(_sensitive_clause(rng, name, sens[i + 1:]))
+    sens_all = sens
+    sens = sens + exposers + exposers      # goals handed to the builtins: more often one of these
     callers = []
-    for i in range(rng.randrange(1, 4)):
+    for i in range(rng.randrange(2, 5)):
         ar = rng.choice([1, 2, 2, 3])
         hv = ['A', 'B', 'C'][:ar]
         lv = ['X', 'Y']
